@@ -64,9 +64,24 @@ Inductive fstate :=
   | Failed (c : exc_class) (code : Z) (msg : list N) (data : N)
   | Cancelled.
 
-(* done-callback attached by send_request: none, the `wrapper` around a user callback, or
+(* What user code does when one of its callbacks runs (callbacks are user code and may call back
+   into the protocol): cancel another future it holds, or send a follow-up request - with a fresh
+   id, another id, or the id of the request that was just answered (a callback-driven poll with a
+   fixed msg_id) - whose own callback is the rest. *)
+Inductive kont :=
+  | KNone
+  | KCancel (h : nat) (k : kont)                         (* futures[h].cancel(); then go on *)
+  | KSend (m rt : N) (mid : option id) (k : kont).       (* send_request(m, msg_id=mid) with callback k; done *)
+
+(* done-callback of the future: none; the `wrapper` send_request puts around callback= (runs the
+   user callback only when result() does not raise); a callback the caller attached with
+   future.add_done_callback (runs on every completion: result, error, cancel); or
    Progress.create's on_created (registers the token, then the optional user callback) *)
-Inductive cbkind := CbNone | CbUser | CbCreate (tok : id) (ucb : bool).
+Inductive cbkind := CbNone | CbUser (k : kont) | CbDone (k : kont) | CbCreate (tok : id) (ucb : bool).
+
+(* does a successful completion count as a call of the user callback *)
+Definition cbflag (c : cbkind) : bool :=
+  match c with CbNone => false | CbUser _ => true | CbDone _ => false | CbCreate _ u => u end.
 
 (* a coroutine suspended in `await send_request_async(...)` whose continuation has an effect on
    the state (Progress.create_async registers the token after the await) *)
@@ -157,14 +172,16 @@ Definition send_request (s : st) (m rt : N) (cb : cbkind) (mid : option id) (w :
 (* what a response carries once structured *)
 Inductive outcome := ORes (rt p : N) | OErr (code : Z) (msg : list N) (data : N).
 
-(* the done-callbacks of future k, run by set_result (a failed / cancelled future makes
-   `wrapper` raise at future.result(); the exception is swallowed and the callback not called) *)
+(* the done-callbacks of future k, run by set_result / set_exception / cancel, as far as they
+   concern the protocol's own state (a failed / cancelled future makes `wrapper` raise at
+   future.result(); the exception is swallowed and the user callback not called) *)
 Definition run_callbacks (s : st) (k : nat) (o : ofut) : st :=
   match ost o with
   | Resolved _ _ =>
     match ocb o with
     | CbNone => s
-    | CbUser => set_ofuts s (aupd Nat.eqb k called (ofuts s))
+    | CbUser _ => set_ofuts s (aupd Nat.eqb k called (ofuts s))
+    | CbDone _ => s
     | CbCreate tok ucb =>
       let s := register_token s tok in
       if ucb then set_ofuts s (aupd Nat.eqb k called (ofuts s)) else s
@@ -172,40 +189,16 @@ Definition run_callbacks (s : st) (k : nat) (o : ofut) : st :=
   | _ => s
   end.
 
-(* future.set_result / future.set_exception on the future with handle k *)
-Definition complete (s : st) (k : nat) (oc : outcome) : st :=
-  match aget Nat.eqb k (ofuts s) with
-  | None => s                                                 (* no such future: unreachable *)
-  | Some o =>
-    if is_pending (ost o) then
-      let v := match oc with
-               | ORes rt p => Resolved rt p
-               | OErr c m d => Failed (class_of_code c) c m d  (* from_error: exc_class(code=, message=, data=) *)
-               end in
-      let o' := set_ost o v in
-      run_callbacks (set_ofuts s (aupd Nat.eqb k (fun _ => o') (ofuts s))) k o'
-    else hook s                                               (* InvalidStateError escapes handle_message *)
+(* the user code that runs inside those done-callbacks: (attached with add_done_callback?, what it does) *)
+Definition kont_of (o : ofut) : option (bool * kont) :=
+  match ocb o with
+  | CbUser kn => if is_resolved (ost o) then Some (false, kn) else None
+  | CbDone kn => if is_pending (ost o) then None else Some (true, kn)
+  | _ => None
   end.
-
-(* _handle_response(msg_id, result, error) *)
-Definition handle_response (s : st) (i : id) (oc : outcome) : st :=
-  match aget id_eqb i (futs s) with
-  | None => hook s                                            (* unknown id: reported, ignored *)
-  | Some r =>
-    let s := set_futs s (adel id_eqb i (futs s)) in           (* future = _request_futures.pop(id) *)
-    match r with
-    | FOut k => complete s k oc
-    | FIn => hook s                                           (* asyncio Task / pool future of an incoming request:
-                                                                 Task.set_result raises, reported by the read loop *)
-    end
-  end.
-
-(* future.cancel() on an outgoing future *)
-Definition cancel_out (s : st) (k : nat) : st :=
-  set_ofuts s (aupd Nat.eqb k (fun o => if is_pending (ost o) then set_ost o Cancelled else o) (ofuts s)).
 
 Inductive ev :=
-  | UserSend (m rt : N) (cb : bool) (mid : option id)
+  | UserSend (m rt : N) (cb : cbkind) (mid : option id)
   (* a response frame {"id": i, "result": p}; oks = the result classes under which payload p
      structures (the cattrs oracle) *)
   | RecvResult (i : id) (p : N) (oks : list N)
@@ -220,37 +213,126 @@ Inductive ev :=
 
 Definition mem_n (x : N) (l : list N) : bool := existsb (N.eqb x) l.
 
-Definition step (s : st) (e : ev) : st :=
-  match e with
-  | UserSend m rt cb mid => send_request s m rt (if cb then CbUser else CbNone) mid WNone
-  | RecvResult i p oks =>
-    (* structure_message, result branch: response_type = _result_types.pop(id) or JsonRPCResponseMessage *)
-    match aget id_eqb i (rtypes s) with
-    | None => hook s                                          (* KeyError -> JsonRpcInternalError, frame only reported *)
-    | Some rt =>
-      let s := set_rtypes s (adel id_eqb i (rtypes s)) in
-      if mem_n rt oks then handle_response s i (ORes rt p)
-      else hook s                                             (* payload does not structure: frame only reported *)
-    end
-  | RecvError i c m d =>
-    (* structure_message, error branch: _result_types.pop(id, None), structure(ResponseErrorMessage);
-       then _handle_response *)
-    let s := set_rtypes s (adel id_eqb i (rtypes s)) in
-    if int32 c then handle_response s i (OErr c m d)
-    else hook s                                               (* the error object does not structure: frame only reported *)
-  | UserCancelOut k => cancel_out s k
-  | InReply i => set_rtypes s (adel id_eqb i (rtypes s))
-  | InAsyncReg i => set_futs s (aset id_eqb i FIn (futs s))
-  | InAsyncDone i res =>
-    let s := if res then set_rtypes s (adel id_eqb i (rtypes s)) else s in
-    set_futs s (adel id_eqb i (futs s))
-  | InCancel i =>
+(* future.cancel() on an outgoing future, without the user code of its callbacks *)
+Definition cancel_out (s : st) (k : nat) : st :=
+  set_ofuts s (aupd Nat.eqb k (fun o => if is_pending (ost o) then set_ost o Cancelled else o) (ofuts s)).
+
+(* The endpoint code, parameterised by X = "run the user code of the callbacks that fire now".
+   The position of X in these functions is the position at which concurrent.futures runs the
+   done-callbacks: INSIDE set_result / set_exception / cancel, i.e. in _handle_response after
+   `_request_futures.pop(msg_id)` and as the last thing the frame's handling does. *)
+Section WithUserCode.
+  Variable X : st -> option (bool * kont) -> st.
+
+  (* future.set_result / future.set_exception on the future with handle k *)
+  Definition complete_with (s : st) (k : nat) (oc : outcome) : st :=
+    match aget Nat.eqb k (ofuts s) with
+    | None => s                                               (* no such future: unreachable *)
+    | Some o =>
+      if is_pending (ost o) then
+        let v := match oc with
+                 | ORes rt p => Resolved rt p
+                 | OErr c m d => Failed (class_of_code c) c m d  (* from_error: exc_class(code=, message=, data=) *)
+                 end in
+        let o' := set_ost o v in
+        X (run_callbacks (set_ofuts s (aupd Nat.eqb k (fun _ => o') (ofuts s))) k o') (kont_of o')
+      else hook s                                             (* InvalidStateError escapes handle_message *)
+    end.
+
+  (* _handle_response(msg_id, result, error) *)
+  Definition handle_response_with (s : st) (i : id) (oc : outcome) : st :=
     match aget id_eqb i (futs s) with
-    | None => s
+    | None => hook s                                          (* unknown id: reported, ignored *)
     | Some r =>
-      let s := set_futs s (adel id_eqb i (futs s)) in
-      match r with FOut k => cancel_out s k | FIn => s end
+      let s := set_futs s (adel id_eqb i (futs s)) in         (* future = _request_futures.pop(id) *)
+      match r with
+      | FOut k => complete_with s k oc
+      | FIn => hook s                                         (* asyncio Task / pool future of an incoming request:
+                                                                 Task.set_result raises, reported by the read loop *)
+      end
+    end.
+
+  (* future.cancel(): a pending future becomes cancelled and its done-callbacks run *)
+  Definition cancel_with (s : st) (k : nat) : st :=
+    X (cancel_out s k)
+      (match aget Nat.eqb k (ofuts s) with
+       | Some o => if is_pending (ost o) then kont_of (set_ost o Cancelled) else None
+       | None => None
+       end).
+
+  Definition step_with (s : st) (e : ev) : st :=
+    match e with
+    | UserSend m rt cb mid => send_request s m rt cb mid WNone
+    | RecvResult i p oks =>
+      (* structure_message, result branch: response_type = _result_types.pop(id) or JsonRPCResponseMessage *)
+      match aget id_eqb i (rtypes s) with
+      | None => hook s                                        (* KeyError -> JsonRpcInternalError, frame only reported *)
+      | Some rt =>
+        let s := set_rtypes s (adel id_eqb i (rtypes s)) in
+        if mem_n rt oks then handle_response_with s i (ORes rt p)
+        else hook s                                           (* payload does not structure: frame only reported *)
+      end
+    | RecvError i c m d =>
+      (* structure_message, error branch: _result_types.pop(id, None), structure(ResponseErrorMessage);
+         then _handle_response *)
+      let s := set_rtypes s (adel id_eqb i (rtypes s)) in
+      if int32 c then handle_response_with s i (OErr c m d)
+      else hook s                                             (* the error object does not structure: frame only reported *)
+    | UserCancelOut k => cancel_with s k
+    | InReply i => set_rtypes s (adel id_eqb i (rtypes s))
+    | InAsyncReg i => set_futs s (aset id_eqb i FIn (futs s))
+    | InAsyncDone i res =>
+      let s := if res then set_rtypes s (adel id_eqb i (rtypes s)) else s in
+      set_futs s (adel id_eqb i (futs s))
+    | InCancel i =>
+      match aget id_eqb i (futs s) with
+      | None => s
+      | Some r =>
+        let s := set_futs s (adel id_eqb i (futs s)) in
+        match r with FOut k => cancel_with s k | FIn => s end
+      end
+    end.
+End WithUserCode.
+
+(* ---- the primitive machine: callbacks whose user code does nothing to the protocol ---- *)
+Definition xnone (s : st) (_ : option (bool * kont)) : st := s.
+Notation complete := (complete_with xnone).
+Notation handle_response := (handle_response_with xnone).
+Notation step := (step_with xnone).
+
+(* ---- the re-entrant machine: the user code of a callback runs where the callback runs ---- *)
+(* f bounds the number of operations user code performs within one event (each callback runs
+   once and its operations are finitely many: fuel_for is such a bound) *)
+Fixpoint execf (f : nat) (s : st) (dk : bool) (kn : kont) : st :=
+  match f with
+  | O => s
+  | S f' =>
+    match kn with
+    | KNone => s
+    | KSend m rt mid k' => send_request s m rt (if dk then CbDone k' else CbUser k') mid WNone
+    | KCancel h k' =>
+      execf f' (cancel_with (fun s x => match x with Some (d, kh) => execf f' s d kh | None => s end) s h) dk k'
     end
+  end.
+
+Definition xrun (f : nat) (s : st) (x : option (bool * kont)) : st :=
+  match x with Some (d, kn) => execf f s d kn | None => s end.
+
+Fixpoint ksize (k : kont) : nat :=
+  match k with KNone => 1 | KCancel _ k' => S (ksize k') | KSend _ _ _ k' => S (ksize k') end.
+Definition cb_size (c : cbkind) : nat :=
+  match c with CbUser k => ksize k | CbDone k => ksize k | _ => 0 end.
+Definition fuel_for (s : st) (e : ev) : nat :=
+  S (fold_right (fun ko n => cb_size (ocb (snd ko)) + n) 0 (ofuts s)
+     + match e with UserSend _ _ cb _ => cb_size cb | _ => 0 end).
+
+Definition rstep (s : st) (e : ev) : st := step_with (xrun (fuel_for s e)) s e.
+Definition rrun_from (s : st) (evs : list ev) : st := fold_left rstep evs s.
+Definition rrun (evs : list ev) : st := rrun_from init evs.
+Fixpoint rtrace_from (s : st) (evs : list ev) : list st :=
+  match evs with
+  | [] => []
+  | e :: r => let s' := rstep s e in s' :: rtrace_from s' r
   end.
 
 Definition run_from (s : st) (evs : list ev) : st := fold_left step evs s.
